@@ -70,6 +70,9 @@ func (s *Service) updateExecutionHeadFromBlock(block *spec.VersionedSignedBeacon
 		}
 	case spec.DataVersionCapella:
 		// Execution information available.
+		if block.Capella == nil || block.Capella.Message == nil || block.Capella.Message.Body == nil {
+			return
+		}
 		executionPayload := block.Capella.Message.Body.ExecutionPayload
 		if executionPayload != nil && !bytes.Equal(executionPayload.StateRoot[:], []byte{0x00, 0x00, 0x00, 0x00, 0x00, 0x00, 0x00, 0x00, 0x00, 0x00, 0x00, 0x00, 0x00, 0x00, 0x00, 0x00, 0x00, 0x00, 0x00, 0x00, 0x00, 0x00, 0x00, 0x00, 0x00, 0x00, 0x00, 0x00, 0x00, 0x00, 0x00, 0x00}) {
 			s.log.Trace().Uint64("height", executionPayload.BlockNumber).Stringer("hash", executionPayload.BlockHash).Msg("Updating execution chain head")
@@ -77,6 +80,9 @@ func (s *Service) updateExecutionHeadFromBlock(block *spec.VersionedSignedBeacon
 		}
 	case spec.DataVersionDeneb:
 		// Execution information available.
+		if block.Deneb == nil || block.Deneb.Message == nil || block.Deneb.Message.Body == nil {
+			return
+		}
 		executionPayload := block.Deneb.Message.Body.ExecutionPayload
 		if executionPayload != nil && !executionPayload.StateRoot.IsZero() {
 			s.log.Trace().Uint64("height", executionPayload.BlockNumber).Stringer("hash", executionPayload.BlockHash).Msg("Updating execution chain head")
